@@ -309,6 +309,14 @@ def npZeros (n : PV) (w : W) : PV :=
   | err e => err e
   | _ => err "TypeError"
 
+/-- `path / "name"` on path strings -/
+def pathJoin (a b : PV) : PV :=
+  match a, b with
+  | err e, _ => err e
+  | _, err e => err e
+  | str x, str y => str (x ++ "/" ++ y)
+  | _, _ => err "TypeError"
+
 /-- `list(x)` of a list of ints -/
 def toList : PV → PV
   | arr _ xs => arr .big xs
